@@ -23,6 +23,7 @@ import (
 	"fmt"
 	"os"
 	"path/filepath"
+	"regexp"
 	"runtime/pprof"
 	"strconv"
 	"strings"
@@ -56,6 +57,8 @@ func body(r *vf.Run) {
 		top(r)
 	case "plain", "race":
 		childBatch(r)
+	case "dbgrowth":
+		dbGrowthStage(r)
 	default:
 		r.Inconclusive("unknown stage " + r.Child)
 	}
@@ -74,7 +77,7 @@ type stagePlan struct {
 func top(r *vf.Run) {
 	plans := []stagePlan{
 		{stage: "plain", cases: r.N(12, 150), ops: r.N(2000, 20000), maxG: r.N(8, 16), timeout: time.Duration(r.N(10, 40)) * time.Minute},
-		{stage: "race", race: true, cases: r.N(8, 40), ops: r.N(500, 3000), maxG: r.N(6, 12), timeout: time.Duration(r.N(10, 40)) * time.Minute},
+		{stage: "race", race: true, cases: r.N(6, 40), ops: r.N(500, 3000), maxG: r.N(6, 12), timeout: time.Duration(r.N(10, 40)) * time.Minute},
 	}
 	if v := os.Getenv("C02_ONLY"); v != "" { // debugging aid: C02_ONLY=plain|race
 		var keep []stagePlan
@@ -86,6 +89,13 @@ func top(r *vf.Run) {
 		plans = keep
 	}
 	var wg sync.WaitGroup
+	if v := os.Getenv("C02_ONLY"); v == "" || v == "dbgrowth" {
+		wg.Add(1)
+		go func() {
+			defer wg.Done()
+			runDBGrowth(r)
+		}()
+	}
 	for _, p := range plans {
 		wg.Add(1)
 		go func(p stagePlan) {
@@ -136,7 +146,7 @@ func runStage(r *vf.Run, p stagePlan) {
 		default:
 			// the child died: a fatal error of the code under test (or of the harness)
 			head := headOf(ex.Output, 1<<20)
-			if strings.Contains(head, "pthread_create failed") || strings.Contains(head, "out of memory") || strings.Contains(head, "cannot allocate memory") {
+			if isResourceLimit(head) {
 				// a resource limit of the sandbox, not an answer of the code under test
 				r.Inconclusive(fmt.Sprintf("stage %s: child hit a resource limit (threads/memory) in case %d", p.stage, begun))
 				if begun < next {
@@ -248,7 +258,15 @@ func headOf(path string, n int) string {
 	return string(b[:m])
 }
 
+func isResourceLimit(out string) bool {
+	return strings.Contains(out, "pthread_create failed") || strings.Contains(out, "out of memory") || strings.Contains(out, "cannot allocate memory")
+}
+
+var hexAddr = regexp.MustCompile(`0x[0-9a-fA-F]+`)
+
+// stripNumbers removes addresses and numbers so that a fatal message can be a stable key.
 func stripNumbers(s string) string {
+	s = hexAddr.ReplaceAllString(s, "")
 	var sb strings.Builder
 	for _, c := range s {
 		if c >= '0' && c <= '9' {
@@ -256,7 +274,7 @@ func stripNumbers(s string) string {
 		}
 		sb.WriteRune(c)
 	}
-	return sb.String()
+	return strings.TrimSpace(sb.String())
 }
 
 // accountRaces attributes race reports to C02. Rule (task statement): a report counts
